@@ -369,7 +369,7 @@ var _ = rapid.Bool
 func TestC01(t *testing.T) {
 	h.Run(t, h.Prop[C01Case]{
 		ID:          "C01",
-		Rule:        "cases = an ordered pair of valid geometries from the same generator as C02 but with collections whose members may overlap (all 7x7 type pairs, empty operands/members, nested collections; triangulated integer grids that coincide / are offset by half a cell / shifted; one injective integer linear map, |c| <= 1024). For Union, Intersection, Difference (both orders), SymmetricDifference (both argument orders), UnaryUnion, Union(x,x), UnionMany (1..3 operands, both orders): no error; result valid by the definitional oracle and by Validate; membership of every slab-trapezoid probe (clearance > tau) in the result = Boolean combination of its exact membership in the operands, closed (edge in iff itself or an adjacent face, vertex in iff itself or an incident cell); every expected remainder edge / isolated point is within tau of a line / point member; area, total line length and number of point members equal the exact measures of that set; canonical result shape. tau = 1e-9 x magnitude. Strict domain only (clearance >= 1e-6 x magnitude). non-trivial = the operands' skeletons meet (crossing, collinear overlap or shared vertex) and some result is non-empty",
+		Rule:        "cases = an ordered pair of valid geometries from the same generator as C02 but with collections whose members may overlap (all 7x7 type pairs, empty operands/members, nested collections; triangulated integer grids that coincide / are offset by half a cell / shifted; one injective integer linear map, |c| <= 1024). For Union, Intersection, Difference (both orders), SymmetricDifference (both argument orders), UnaryUnion, Union(x,x), UnionMany (1..3 operands, both orders): no error; result valid by the definitional oracle and by Validate; membership of every slab-trapezoid probe (clearance > tau) in the result = Boolean combination of its exact membership in the operands, closed (edge in iff itself or an adjacent face, vertex in iff itself or an incident cell); every expected remainder edge / isolated point is within tau of a line / point member; area, total line length and number of point members equal the exact measures of that set; canonical result shape. tau = 1e-9 x magnitude. Strict domain only (clearance >= 1e-6 x magnitude). non-trivial = the operands' skeletons meet (crossing, collinear overlap or shared vertex) and some result is non-empty Families of the shared pair generator: triangulated integer grids that coincide / are offset by half a cell / are shifted, under an injective integer map and optionally an exact dyadic affine image; hole-nesting (annulus, island, covering members, far-away decoy members in front of the deciding one); general-position floats (random 53-bit mantissas in a window - crossing points not representable); concurrent (3..14 integer segments through one non-lattice point, dyadic or not).",
 		Assumptions: []string{"exact kernel (internal/exact)", "inputs of the class overlay/operand-cell-unlabelled (open known finding F17) are excluded by class and counted"},
 		Gen:         c01Gen,
 		Check:       c01Check,
